@@ -459,6 +459,23 @@ fn grammar_cases() -> Vec<(String, &'static str, Vec<u8>)> {
         b.extend_from_slice(b"0.500000 1 36f Rx d 2 01 02 Length = 0 BitCount = 0 ID = 879\n");
         out.push((format!("asc_long_busname:{n}"), "asc", b));
     }
+    // over-long names made of multi-byte characters, shifted by 0..3 ASCII bytes: wherever the reader cuts the name
+    // to fit, the cut falls inside a character for one of the shifts
+    for (cname, ch) in [("2byte", "ä"), ("3byte", "€"), ("4byte", "\u{1F600}")] {
+        for shift in 0..4usize {
+            for n in [65_490usize, 65_540, 70_000] {
+                let long = format!("{}{}", "a".repeat(shift), ch.repeat(n / ch.len()));
+                let tag = format!("{cname}+{shift}:{n}");
+                out.push((format!("logcat_long_mb_tag:{tag}"), "txt", format!("--------- beginning of main\n01-01 00:00:01.000  100   100 I {long}: x\n01-01 00:00:02.000  100   100 I t2: y\n").into_bytes()));
+                out.push((format!("logcat_long_mb_text:{tag}"), "txt", format!("--------- beginning of main\n01-01 00:00:01.000  100   100 I tag: {long}\n").into_bytes()));
+                out.push((format!("genlog_long_mb_tag:{tag}"), "log", format!("[2024-03-09 23:01:31.627] [INF] [{long}] text a\n[2024-03-09 23:01:31.628] [INF] [t2] text b\n").into_bytes()));
+                out.push((format!("genlog_long_mb_text:{tag}"), "log", format!("[2024-03-09 23:01:31.627] [INF] [tag] {long}\n").into_bytes()));
+                let mut b = format!("date Tue Apr 12 08:55:37 AM 2022\nbase hex timestamps absolute\n//BusMapping: CAN 1 = {long}\n").into_bytes();
+                b.extend_from_slice(b"0.500000 1 36f Rx d 2 01 02 Length = 0 BitCount = 0 ID = 879\n");
+                out.push((format!("asc_long_mb_busname:{tag}"), "asc", b));
+            }
+        }
+    }
     for n in [21_000usize, 65_500, 65_514, 65_520, 65_536, 70_000] {
         let mut b = pre.clone();
         let mut line = format!("0.100000 1 36f Rx d {n}");
